@@ -609,6 +609,8 @@ class Evaluator(object):
 
     def for_stmt(self, st, env):
         it = self.ev(st.iter, env)
+        while it.op == "call" and tm.callee_name(it.a[0]) in ("builtins.list", "builtins.tuple") and len(it.a[1]) == 1 and not it.a[2]:
+            it = it.a[1][0]  # iterating list(X) visits the elements of X
         if isinstance(st.target, ast.Name):
             rw = self._row_iteration(it, "L%d" % (self.nloops + 1))
             if rw is not None:
@@ -802,6 +804,10 @@ class Evaluator(object):
             old = self.lookup(tg.id, env, tg)
             if op == "/":
                 self.site("div", st, num=old, den=v)
+            cc = self._concat(op, old, v)
+            if cc is not None:
+                env[tg.id] = cc  # a tuple is immutable: `t += u` re-binds t
+                return
             new = tm.binop(op, old, v)
             self.site("mutate", st, how="aug", old=old, root=tg.id, key=tm.const(op), val=v, target=tg)
             env[tg.id] = new
@@ -998,10 +1004,44 @@ class Evaluator(object):
         self.site("subscript", node, base=base, index=idx, term=t)
         return t
 
+    def _tuple_parts(self, t):
+        """components of a value that is certainly a tuple of known length: a tuple display, or a call of a repo
+        function all of whose returns are tuple displays of one length; else None"""
+        if t.op == "tuple":
+            return list(t.a)
+        if t.op == "call" and t.a[0].op == "func" and self.P.has_func(t.a[0].a[0]):
+            g = self.P.func(t.a[0].a[0])
+            lens = set()
+            for n in ast.walk(g.node):
+                if isinstance(n, ast.Return):
+                    if isinstance(n.value, ast.Tuple) and not any(isinstance(e, ast.Starred) for e in n.value.elts):
+                        lens.add(len(n.value.elts))
+                    else:
+                        return None
+                elif isinstance(n, (ast.Yield, ast.YieldFrom)):
+                    return None
+            if len(lens) == 1:
+                return [tm.proj(t, i) for i in range(lens.pop())]
+        return None
+
+    def _concat(self, op, l, r):
+        """tuple + tuple with known lengths is the tuple of all components"""
+        if op != "+":
+            return None
+        if l.op != "tuple" and r.op != "tuple":
+            return None
+        pl, pr = self._tuple_parts(l), self._tuple_parts(r)
+        if pl is None or pr is None:
+            return None
+        return tm.tup(pl + pr)
+
     def ev_BinOp(self, node, env):
         l = self.ev(node.left, env)
         r = self.ev(node.right, env)
         op = BINOPS[type(node.op)]
+        cc = self._concat(op, l, r)
+        if cc is not None:
+            return cc
         t = tm.binop(op, l, r)
         if op in ("/", "//", "%"):
             self.site("div", node, num=l, den=r, op=op, term=t)
@@ -1105,6 +1145,8 @@ class Evaluator(object):
         saved = self.pc
         for g in node.generators:
             it = self.ev(g.iter, inner)
+            while it.op == "call" and tm.callee_name(it.a[0]) in ("builtins.list", "builtins.tuple") and len(it.a[1]) == 1 and not it.a[2]:
+                it = it.a[1][0]
             iters.append(it)
             self.pc = self.pc + (("loop", cid, it),)
             self.bind_iter(g.target, g.iter, it, cid, inner, node)
@@ -1125,6 +1167,15 @@ class Evaluator(object):
                 return tm.lst(out) if kind in ("list", "gen") else tm.mk("set", *out)
         vals = tuple(self.ev(e, inner) for e in elts)
         self.pc = saved
+        if kind == "list" and len(iters) == 1 and not conds and len(vals) == 1:
+            # [x for x in it] / [(a, b) for a, b in it] is list(it)
+            el = tm.mk("iter", iters[0], cid)
+            v = vals[0]
+            ident = v is el or (v.op == "tuple" and len(v.a) >= 2 and all(z is tm.proj(el, i) for i, z in enumerate(v.a)))
+            if not ident and v.op == "tuple" and iters[0].op == "call" and tm.callee_name(iters[0].a[0]) == "builtins.zip" and len(iters[0].a[1]) == len(v.a) and not any(z.op == "star" for z in iters[0].a[1]):
+                ident = all(z is tm.mk("iter", za, cid) for z, za in zip(v.a, iters[0].a[1]))
+            if ident:
+                return tm.call(tm.mk("builtin", "list"), (iters[0],))
         return tm.mk("comp", kind, vals[0] if len(vals) == 1 else tm.tup(vals), tuple(iters), tuple(conds), cid)
 
     def ev_ListComp(self, node, env):
